@@ -104,6 +104,17 @@ def check_ids(case, ctx):
         require(bad.size == 0, "id at depth %d is not a child of the id at depth %d for (%r,%r): %d vs %d",
                 d + 1, d, ra[bad[0]] if bad.size else None, dec[bad[0]] if bad.size else None,
                 int(ids[d + 1][bad[0]]) if bad.size else 0, int(ids[d][bad[0]]) if bad.size else 0)
+    # ids handed out earlier stay what they were when the same HTM object looks up other positions (of the same
+    # number) afterwards, and that later call answers for its own arguments
+    hh = esutil.htm.HTM(case["depth"])
+    first = must(hh.lookup_id, ra_c, dec_c)
+    first_copy = np.array(first, copy=True)
+    later = must(hh.lookup_id, ra[::-1].copy(), dec[::-1].copy())
+    require(np.array_equal(first, first_copy), "the id array returned by lookup_id changed when the same HTM object "
+            "looked up other positions: now %r, was %r", np.asarray(first).tolist()[:6], first_copy.tolist()[:6])
+    require(np.array_equal(first_copy, ids[case["depth"]]) and np.array_equal(later, ids[case["depth"]][::-1]),
+            "a second lookup_id call on one HTM object (same number of positions, reversed order) returned %r, "
+            "expected %r", np.asarray(later).tolist()[:6], ids[case["depth"]][::-1].tolist()[:6])
     # scalar calls
     f4 = case["container"] == "f4"
     for d in sorted(set([case["depth"], MAXDEPTH_ID])):
@@ -466,6 +477,8 @@ def check_bincount(case, ctx):
     pre = case["pre"]
     if pre != "none":
         htmid2 = must(h.lookup_id, t.ra2_c, t.dec2_c)
+        # the object is asked about other positions before the precomputed ids are used
+        must(h.lookup_id, np.asarray(t.ra2_c, dtype="f8")[::-1].copy(), np.asarray(t.dec2_c, dtype="f8")[::-1].copy())
         minid, maxid = htmid2.min(), htmid2.max()
         kw2 = dict(kw)
         kw2["htmid2"] = htmid2.tolist() if pre == "all-lists" else htmid2
